@@ -1,0 +1,18 @@
+//go:build verif
+
+package skchia
+
+// File-effect contracts for govc (see /verif/DESIGN.md, C11). Comment-only; build tag verif.
+// Removing or renaming files is an effect: a function may reach an effectful callee only if it declares the effect.
+// Every function of this package without such a declaration is thereby proved never to delete or rename plot files.
+
+//@ func (*SpaceKeeper).ActOnWorkSpace
+//@   attr effect:fs.remove
+//@   assert-at call DeleteWS only-on-a-delete-request: action == engine.Delete && arg1 == sid
+//@   assert-at call RemoveWS remove-request: action == engine.Remove && arg1 == sid
+//@ func (*SpaceKeeper).ActOnWorkSpaces
+//@   attr effect:fs.remove
+//@   assert-at call DeleteMultiWS only-on-a-delete-request: action == engine.Delete
+//@ func (*SpaceKeeper).DeleteMultiWS
+//@   attr effect:fs.remove
+
